@@ -1179,7 +1179,8 @@ class C07(ImportSpec):
                 "C07_exclude_audits_and_violations", "C07_exclude_wildcard_audits", "C07_imported_entries_come_from_the_peer",
                 "C07_multi_url_is_union", "C07_freshness_marking_keeps_entries",
                 "C07_multi_url_verdict_is_that_of_the_union", "C07_verdict_is_a_function_of_the_remaining_records",
-                "C07_accepted_lock_is_in_step", "C07_stale_excluded_entry_is_refused"]
+                "C07_accepted_lock_is_in_step", "C07_stale_excluded_entry_is_refused",
+                "C07_violation_without_criteria_conflicts_with_nothing"]
     level_text = ("Theorems about the model of fetch_single_imported_audit / multi-URL aggregation / freshness marking, for every peer "
                   "file, criteria-map and exclude list: C07_mapping (an imported entry denotes locally exactly the union over the "
                   "closure of its criteria in the peer's table of what the criteria-map — consulted first — or the built-in rule maps "
